@@ -27,6 +27,7 @@ import re
 import kinds as K
 import fingerprint as FP
 
+INFORMATIVE = re.compile(r'"(\.[A-Za-z_]\w*|call:[A-Za-z_][\w<>]*::\w+|const:\w+|[A-Z]\w+::\w+)"')
 ERR_ADT = re.compile(r"(Error|Err|Reject|Status|StatusCode)$")
 PARAM = re.compile(r"P\d+(\.[A-Za-z_0-9#]+)*")
 
@@ -47,6 +48,8 @@ def clean_leaf(x):
         return None
     if x.startswith("lit:") and not re.match(r"^lit:-?\d+$", x):
         return None       # string / char / float literals: messages and labels
+    if re.match(r"^P[\w^]+$", x):
+        return None       # a bare parameter / captured variable: positional, changes with every extraction, inlining or closure conversion
     m = re.match(r"^P\d+((?:\.[\w#]+)+)$", x) or re.match(r"^fld:[\w#]+(\.[\w#]+)$", x) or re.match(r"^fld:()([\w#]+)$", x)
     if m:
         segs = [y for y in (m.group(2) if m.lastindex == 2 else m.group(1)).split(".") if y and not re.match(r"^#?\d+$", y)]
@@ -237,6 +240,8 @@ def _atoms(bodies, S):
                     core = _j([hc[0], [hc[1][0]] + list(clean(hc[1][1:])) if hc[1] else [], clean(hc[2])])
                 else:
                     core = _j([hc[0], clean(hc[1]), clean(hc[2])])
+                if not INFORMATIVE.search(core):
+                    continue      # a bool out of plumbing alone (`x.is_empty()`, `o.unwrap_or(false)`): nothing says what is tested
                 tag = ""
                 sw = None
                 if hc[0] != "cmp~":
@@ -288,3 +293,49 @@ def _atoms(bodies, S):
                 except Exception:
                     pass
     return {k: sorted(v) for k, v in out.items()}
+
+
+_REACH = {}
+
+
+def callee_reach(bodies, S, depth=2):
+    """{name of a directly called workspace function (as in `call` atoms): names reachable from it through at most `depth` further calls}.
+    Used when a function lost `call X` but gained `call G`: if G reaches X the step moved behind G (a helper, a getter doing the same)."""
+    out = {}
+    for b in bodies:
+        for c in b.calls:
+            if not (re.match(r"^<?ckb_", c.callee) or (c.res or "").startswith("ckb_")):
+                continue
+            n = atom_call_name(c, S)
+            if not n:
+                continue
+            try:
+                for cb in S.callee_bodies(c):
+                    out.setdefault(n, set()).update(_reach_body(cb, S, depth))
+                    for nb in cb.nested():
+                        out[n] |= _reach_body(nb, S, depth)
+            except Exception:
+                pass
+    return out
+
+
+def _reach_body(b, S, depth):
+    key = (b.path, depth)
+    if key in _REACH:
+        return _REACH[key]
+    _REACH[key] = set()
+    out = set()
+    for c in b.calls:
+        n = atom_call_name(c, S)
+        if n:
+            out.add(n)
+        if depth > 0 and (re.match(r"^<?ckb_", c.callee) or (c.res or "").startswith("ckb_")):
+            try:
+                for cb in S.callee_bodies(c):
+                    out |= _reach_body(cb, S, depth - 1)
+                    for nb in cb.nested():
+                        out |= _reach_body(nb, S, depth - 1)
+            except Exception:
+                pass
+    _REACH[key] = out
+    return out
